@@ -71,6 +71,9 @@ func runC06(p *core.Program, r *core.Report) {
 	for _, fl := range tl.Order {
 		byObj[fl.FI.Obj] = fl
 		for _, ac := range fl.Accesses {
+			if ac.Alias && !tl.ElemWritten[ac.Field] {
+				continue // the map is replaced, never written in place: a snapshot reference is safe to read
+			}
 			if (ac.Field == "conn" || ac.Field == "wr") && ac.Held != locks.Yes && !needs[fl.FI.Obj] {
 				needs[fl.FI.Obj] = true
 				why[fl.FI.Obj] = fl.FI.Obj.Name() + " uses " + ac.Field
@@ -128,6 +131,9 @@ func runC06(p *core.Program, r *core.Report) {
 		// a root that touches conn/wr itself without the mutex
 		if root && name != "Connect" && name != "Close" && name != "Flush" && name != "send" {
 			for _, ac := range fl.Accesses {
+				if ac.Alias && !tl.ElemWritten[ac.Field] {
+					continue // the map is replaced, never written in place: a snapshot reference is safe to read
+				}
 				if (ac.Field == "conn" || ac.Field == "wr") && ac.Held != locks.Yes {
 					key := mname + " uses " + ac.Field + " (send mutex not held)"
 					if !seen[key] {
